@@ -18,7 +18,10 @@ def run_case(case):
     clear_cache()
     env = ser.Env(dim=case["dim"])
     expr = ser.build_sx(case["tree"], env)
-    out = {"in": ser.ser_sx(expr)}
+    try:
+        out = {"in": ser.ser_sx(expr)}
+    except ser.Unsupported as e:   # e.g. sympy evaluated the generated tree to a complex number
+        return {"in": case["tree"], "out": {"err": "unsupported-node", "msg": "input: " + str(e)}}
     ops = ser.dops()
     res = expr
     arg = expr
